@@ -293,52 +293,54 @@ impl<T, S: NodeState> Node<T, S> {
     ) -> Option<&'r NodeData<T>> {
         for child in &self.wildcard_constrained_children {
             let mut consumed = 0;
-            let mut remaining_path = path;
-            let mut section_end = false;
 
-            while !remaining_path.is_empty() {
-                if section_end {
-                    consumed += 1;
+            let mut best_match: Option<&'r NodeData<T>> = None;
+            let mut best_match_parameters = smallvec![];
+
+            while consumed < path.len() {
+                consumed += 1;
+
+                // A capture may only stop at the end of a segment.
+                if consumed < path.len() && path[consumed] != b'/' {
+                    continue;
                 }
 
-                let segment_end = remaining_path
-                    .iter()
-                    .position(|&b| b == b'/')
-                    .unwrap_or(remaining_path.len());
-
-                if segment_end == 0 {
-                    consumed += 1;
-                    section_end = false;
-                } else {
-                    consumed += segment_end;
-                    section_end = true;
+                let segment = &path[..consumed];
+                if !Self::check_constraint(Some(&child.state.constraint), segment, constraints) {
+                    continue;
                 }
 
-                let segment = if path[..consumed].ends_with(b"/") {
-                    &path[..consumed - 1]
-                } else {
-                    &path[..consumed]
+                let value = match std::str::from_utf8(segment) {
+                    Ok(value) => value,
+                    _ => {
+                        continue;
+                    }
                 };
 
-                if !Self::check_constraint(Some(&child.state.constraint), segment, constraints) {
-                    break;
+                let mut current_parameters = parameters.clone();
+                current_parameters.push((&child.state.name, value));
+
+                let data =
+                    match child.search(&path[consumed..], &mut current_parameters, constraints) {
+                        Some(data) => data,
+                        _ => {
+                            continue;
+                        }
+                    };
+
+                if best_match.map_or(true, |best| match data.depth().cmp(&best.depth()) {
+                    Ordering::Greater => true,
+                    Ordering::Equal => data.length() >= best.length(),
+                    Ordering::Less => false,
+                }) {
+                    best_match = Some(data);
+                    best_match_parameters = current_parameters;
                 }
+            }
 
-                parameters.push((&child.state.name, std::str::from_utf8(segment).ok()?));
-
-                if let Some(result) =
-                    child.search(&remaining_path[segment_end..], parameters, constraints)
-                {
-                    return Some(result);
-                }
-
-                parameters.pop();
-
-                if segment_end == remaining_path.len() {
-                    break;
-                }
-
-                remaining_path = &remaining_path[segment_end + 1..];
+            if let Some(result) = best_match {
+                *parameters = best_match_parameters;
+                return Some(result);
             }
         }
 
@@ -412,48 +414,50 @@ impl<T, S: NodeState> Node<T, S> {
     ) -> Option<&'r NodeData<T>> {
         for child in &self.wildcard_children {
             let mut consumed = 0;
-            let mut remaining_path = path;
-            let mut section_end = false;
 
-            while !remaining_path.is_empty() {
-                if section_end {
-                    consumed += 1;
+            let mut best_match: Option<&'r NodeData<T>> = None;
+            let mut best_match_parameters = smallvec![];
+
+            while consumed < path.len() {
+                consumed += 1;
+
+                // A capture may only stop at the end of a segment.
+                if consumed < path.len() && path[consumed] != b'/' {
+                    continue;
                 }
 
-                let segment_end = remaining_path
-                    .iter()
-                    .position(|&b| b == b'/')
-                    .unwrap_or(remaining_path.len());
-
-                if segment_end == 0 {
-                    consumed += 1;
-                    section_end = false;
-                } else {
-                    consumed += segment_end;
-                    section_end = true;
-                }
-
-                let segment = if path[..consumed].ends_with(b"/") {
-                    &path[..consumed - 1]
-                } else {
-                    &path[..consumed]
+                let segment = &path[..consumed];
+                let value = match std::str::from_utf8(segment) {
+                    Ok(value) => value,
+                    _ => {
+                        continue;
+                    }
                 };
 
-                parameters.push((&child.state.name, std::str::from_utf8(segment).ok()?));
+                let mut current_parameters = parameters.clone();
+                current_parameters.push((&child.state.name, value));
 
-                if let Some(result) =
-                    child.search(&remaining_path[segment_end..], parameters, constraints)
-                {
-                    return Some(result);
+                let data =
+                    match child.search(&path[consumed..], &mut current_parameters, constraints) {
+                        Some(data) => data,
+                        _ => {
+                            continue;
+                        }
+                    };
+
+                if best_match.map_or(true, |best| match data.depth().cmp(&best.depth()) {
+                    Ordering::Greater => true,
+                    Ordering::Equal => data.length() >= best.length(),
+                    Ordering::Less => false,
+                }) {
+                    best_match = Some(data);
+                    best_match_parameters = current_parameters;
                 }
+            }
 
-                parameters.pop();
-
-                if segment_end == remaining_path.len() {
-                    break;
-                }
-
-                remaining_path = &remaining_path[segment_end + 1..];
+            if let Some(result) = best_match {
+                *parameters = best_match_parameters;
+                return Some(result);
             }
         }
 
